@@ -29,8 +29,9 @@ Transcription rules
   likewise.
 * `Vec::sort_by` is `List.mergeSort` with the transcribed comparator (a strict total order on the
   indices because of the final `a.cmp(&b)`, so every correct sort returns the same list).
-* `emit_instructions`' work loop has explicit fuel `3·|pairs| + 2`
-  (`Lemmas/Serde2026Emit.lean`: never exhausted on the output of `intern_tree`).
+* `emit_instructions`' work loop has explicit fuel `3·|pairs| + 2` (each pair is expanded at most
+  once: one `Cons` and two `Build`s per pair, plus the root; that the fuel suffices on the output of
+  `intern_tree` is not proved — an exhaustion would show up as `panic` on the SER stream).
 -/
 import ClvmModel.Intern
 import ClvmModel.Varint
